@@ -138,6 +138,8 @@ func c11Program(pg *gen.PG, i int) (string, []*canon.Node) {
   (trace! (list :futures-made-in-scopes-nested-in-a-let-still-being-bound (nested-race%[1]s 25 0)))
   (def body-race%[1]s (fn (n x acc) (if (< n 1) acc (let (fu ((fn (p) (def fu-local (let (y 1) (future (+ p (+ x y))))) (def late1 1) (def late2 2) (def late3 (+ late1 late2)) (list fu-local late3)) n)) (body-race%[1]s (- n 1) x (+ acc (+ (- @(first fu) (+ n x)) (first (rest fu)))))))))
   (trace! (list :future-made-in-a-let-inside-a-function-body-that-goes-on-defining (body-race%[1]s 25 %[2]d 0)))
+  (def rs-loop%[1]s (fn (n acc) (if (< n 1) acc (rs-loop%[1]s (- n 1) (+ acc (count (read-string (str "[:rk%[2]d-" n " rs%[2]d-" n " {:rm" n " #{:rs%[2]d}}]"))))))))
+  (trace! (list :read-string-of-names-never-read-before (rs-loop%[1]s 30 0)))
   (def bump-loop%[1]s (fn (n) (if (< n 1) :bumped (do (bump-host-counter!) (bump-loop%[1]s (- n 1))))))
   (trace! (bump-loop%[1]s 40))
   (defmacro two-temps%[1]s (fn (a b) (let (x (gensym) y (gensym)) (list 'let (list x a y b) (list 'list x y)))))
